@@ -535,6 +535,16 @@ def build_macros_unit(cfg, n, outdir):
         text = rule_continue(text, log)
         if rel == 'macros/src/generate/query.rs':
             text = rule_optmap_ident(text, 'bind_one_of', 'found', log)
+        if rel == 'macros/src/generate/query.rs':
+            # R-emit: the emission skeletons of the three query generators (C05)
+            from . import emit
+            rawq = add_markers(read_repo(rel), fid)
+            text += ('\n// ---- R-emit: the parsed query restricted to the field the emission skeleton reads\n'
+                     'pub struct EmitQueryData { pub params: Vec<ParseQueryParam> }\n')
+            for g in ('generate_query_find', 'generate_query_iter', 'generate_query_iter_destroy'):
+                _, etext = emit.emit_skeleton(rawq, g, log)
+                etext = rule_continue(etext, log)
+                text += '\n// ---- R-emit: emission skeleton of %s\n' % g + etext
         fspec = sc.files.get(rel) or sidecar.FileSpec(rel)
         text, _ = apply_contracts(text, fspec, log, rel, None)
         body.append('// ======== %s\n' % rel + text)
